@@ -19,8 +19,6 @@ NOT_APPLICABLE = {
     'C02': 'approximate agreement with a continuum-limit closed form (error = O(dr), must shrink under refinement): '
            'no exact finite instance exists for TLC to enumerate and a trace spec could only rubber-stamp a floating-point '
            'convergence study, i.e. a change of technique; its prefactor content is decided piecewise by C01, C04, C05, C08, C09, C16',
-    'C18': 'the Debyer extension cannot be built in this sandbox (Debyer.pyx fails under Cython 3.3, the shipped Debyer.c does not '
-           'compile against CPython 3.12/numpy 2.5), so there is no implementation to bind a schedule specification to',
 }
 
 PENDING = 'specification module and conformance harness for this property are not built yet in this session (planned: DESIGN.md section 4)'
@@ -192,6 +190,20 @@ claim('C04', 'DESIGN.md 4/C04',
       'function for every base pattern x every permutation / split ratio / scale, and on converged results for a sample.',
       'Base systems: 3 ranks x 4 closure x 3 potential x 4 omega patterns with seeded densities; cost level 1e-9, solved level 1e-4 '
       '(solves to fatol 1e-10); 10 (60) solved pairs; unconverged solves skipped.')
+
+claim('C18', 'DESIGN.md 13.6',
+      'TLA+ spec Debyer.tla: the chunk table (_chunk) and the OpenMP schedule of one frame (static schedule, private accumulation rows, '
+      'load/store grain, barrier, sequential reduction; every pair carries a distinct integer weight) - TLC explores every interleaving '
+      'for small instances and checks ResultIsDebyeSum, RowsArePrivate, ReduceAfterBarrier, Terminates (weak fairness), ChunkPartition '
+      '(n <= 12, chunks <= 14), OrderIndependent; a shared-row deviation must violate them.  The extension is rebuilt from /repo '
+      '(cython + gcc -fopenmp, scratch directory); the real _chunk is compared with the specification chunk table, and omega of seeded '
+      'trajectories with the direct float64 Debye sum for every chunk count x OMP_NUM_THREADS and for permuted site orders',
+      'A schedule property: exhaustive over interleavings at the specification level for small instances; the binding compares the real '
+      'chunk tables with the specified ones (so the TLC-checked partition applies to the code) and the end-to-end result across chunk and '
+      'thread counts, including counts that do not divide or exceed the number of sites.',
+      'Possible since the fix of Debyer.pyx integer types (the extension builds with the installed cython/numpy); float32 accumulation: '
+      'agreement judged at 5e-5; races that do not change the result within that tolerance on this machine are not observable by the binding '
+      '(they are excluded by RowsArePrivate at the specification level only).')
 
 ALL = ['C%02d' % i for i in range(1, 19)]
 
